@@ -223,6 +223,15 @@ def run(repo, rep, tier):
     r1 = rep.rule('C17.R1', 'exactly one response per path')
     r2 = rep.rule('C17.R2', 'no escaping exception before the response')
     property_call_rule(repo, rep)
+    # messages built on the request path (parser errors end up in the 400
+    # response): a format template that interpolates request text raises
+    # KeyError / IndexError inside the handler
+    r9 = rep.rule('C17.R9', 'error messages on the request path can be built '
+                  '(constant, well-formed format templates)')
+    from ..guards import run_format_rule
+    run_format_rule(repo, rep, r9, lambda f: f.file in (
+        LS, 'pywbem/_tupletree.py', 'pywbem/_tupleparse.py',
+        'pywbem/_exceptions.py', 'pywbem/_utils.py'))
     r3 = rep.rule('C17.R3', 'header values are single-line')
     r3b = rep.rule('C17.R3b', 'body-derived header values are escaped to '
                    'latin-1 encodable text')
